@@ -29,7 +29,7 @@ import (
 )
 
 func TestMain(m *testing.M) {
-	if os.Getenv(janitorChildEnv) == "" {
+	if os.Getenv(janitorChildEnv) == "" && os.Getenv(firstUseChildEnv) == "" {
 		service.GetReplayCache(1 << 62) // janitor started outside any bubble; clean-up is driven explicitly
 	}
 	os.Exit(m.Run())
@@ -46,6 +46,7 @@ type op struct {
 	Call    int64  `json:"call"`
 	Return  int64  `json:"return"`
 	Advance string `json:"advance,omitempty"`
+	Skew    string `json:"skew,omitempty"` // permitted clock skew of the Settings a presentation went through (histories with several)
 }
 
 type pkey struct {
@@ -152,7 +153,8 @@ func TestProp(t *testing.T) {
 		"(2) free-running stress under the race detector: 2-8 goroutines released by a barrier present the same fresh authenticator and neighbours while clean-up runs, random Gosched at the hooks; " +
 		"(3) sequential histories under a virtual clock: bounded-exhaustive over {present(k), advance, clean-up} with k in 2 clients x 3 timestamps x 2 services, plus long random histories through Cache.IsReplay and through the full service.VerifyAPREQ path with reference-minted AP-REQs. " +
 		"Oracle: test-and-set model (porcupine linearizability, partitioned by authenticator) plus at-most-once / at-least-once counters. distinct = schedule / trial signature / history; non-trivial = contains >= 2 presentations")
-	r.Assume("one clock skew per process (the singleton's janitor uses the first caller's skew); presentations are generated only while their timestamp passes the skew check, as VerifyAPREQ would")
+	r.Assume("the cache's own janitor runs with one clock skew per process (it uses the first caller's skew); presentations are generated only while their timestamp passes the skew check, as VerifyAPREQ would. " +
+		"Where one process verifies through Settings with several clock skews (multiskew processes; the janitor has the first of them), a second acceptance is judged only while the timestamp passes the smallest of them")
 	r.Assume("authenticators of clients with equal names in different realms are not exercised (the statement names the client principal; the cache keys on the name string)")
 	if err := kcrypto.SelfTest(); err != nil {
 		r.Inconclusive("reference self-test failed: " + err.Error())
@@ -161,6 +163,27 @@ func TestProp(t *testing.T) {
 	if !schedSelfTest(r) {
 		return
 	}
+	// stated before the monitors run: a run that ends early (a panic that escapes a monitor) is then inconclusive, not silent
+	r.Require("coop_schedules", 100)
+	r.Require("coop_histories_ok", 100)
+	r.Require("stress_trials", 10000)
+	r.Require("stress_same_key_presentations", 20000)
+	r.Require("seq_histories", 10000)
+	r.Require("seq_replays_detected", 1000)
+	r.Require("verifypath_presentations", 1000)
+	r.Require("verifypath_replays_detected", 100)
+	r.Require("volume_represented", 100000)
+	r.Require("janitor_presentations", 1000)
+	r.Require("janitor_replays_detected", 100)
+	r.Require("janitor_wakeups_with_entries", 10)
+	r.Require("multiskew_presentations", 1000)
+	r.Require("multiskew_replays_detected", 100)
+	r.Require("multiskew_represented_through_other_skew", 100)
+	r.Require("stressexp_trials", 1000)
+	r.Require("stressexp_presentations_overlapping_cleanup", 300)
+	r.Require("firstuse_processes", 20)
+	r.Require("firstuse_processes_with_overlapping_first_calls", 10)
+	r.Require("firstuse_replays_detected", 20)
 	phase := func(name string, f func()) {
 		t0 := time.Now()
 		f()
@@ -179,22 +202,12 @@ func TestProp(t *testing.T) {
 	}
 	phase("cooperative_schedules", func() { monitorCoop(r) })
 	phase("stress", func() { monitorStress(r) })
+	phase("stress_expired_client", func() { monitorStressExpired(r) })
 	phase("sequential_histories", func() { monitorHistories(t, r) })
 	phase("verifyapreq_histories", func() { monitorVerifyPath(t, r) })
 	phase("volume", func() { monitorVolume(t, r) })
 	phase("janitor_processes", func() { monitorJanitor(t, r) })
-	r.Require("coop_schedules", 100)
-	r.Require("coop_histories_ok", 100)
-	r.Require("stress_trials", 10000)
-	r.Require("stress_same_key_presentations", 20000)
-	r.Require("seq_histories", 10000)
-	r.Require("seq_replays_detected", 1000)
-	r.Require("verifypath_presentations", 1000)
-	r.Require("verifypath_replays_detected", 100)
-	r.Require("volume_represented", 100000)
-	r.Require("janitor_presentations", 1000)
-	r.Require("janitor_replays_detected", 100)
-	r.Require("janitor_wakeups_with_entries", 10)
+	phase("first_use_processes", func() { monitorFirstUse(t, r) })
 }
 
 // ---------------------------------------------------------------------------------------
@@ -714,30 +727,73 @@ func newVPEnv() (*vpEnv, error) {
 // valid request is refused for another reason than being a replay. fine: short advances and timestamps anywhere in the
 // window (for skews of a few seconds, where the janitor of the cache wakes several times within one history).
 func (e *vpEnv) history(rnd *vh.Rand, hl int, sk time.Duration, fine bool) (hist []op) {
+	return e.historySkews(rnd, hl, []time.Duration{sk}, fine, nil)
+}
+
+// skewStats counts what a history with several skews reached.
+type skewStats struct {
+	crossSkew       int // re-presentations, inside the smallest window, through Settings with another skew than the accepting ones
+	unjudgedSecond  int // second acceptances outside the smallest window (inside the window of the Settings used): not judged
+	outsideSmallest int // presentations inside their own window and outside the smallest one
+}
+
+// mintReq builds an AP-REQ for authenticator k with the reference implementation (second: for the second service).
+func (e *vpEnv) mintReq(rnd *vh.Rand, k pkey, second bool, t0 time.Time) []byte {
 	et := e.et
-	set := service.NewSettings(e.gkt, service.DecodePAC(false), service.MaxClockSkew(sk))
+	sn, ske := e.svc, e.ktm[0]
+	if second {
+		sn, ske = e.svc2, e.ktm[1]
+	}
+	cn := kmsg.N(1, k.cname)
+	sess := kmsg.Key{Type: et, Value: pcommon.RefKey(rnd, et)}
+	m := accept.Mint{ServiceKey: kmsg.Key{Type: et, Value: ske.Key}, Kvno: kmsg.U32(1), Realm: "TEST.GOKRB5", SName: sn,
+		Tkt:  kmsg.EncTicketPart{Flags: 0x40800000, Key: sess, CRealm: "TEST.GOKRB5", CName: cn, AuthTime: t0.Add(-time.Minute), EndTime: t0.Add(10 * time.Hour)},
+		Auth: kmsg.Authenticator{CRealm: "TEST.GOKRB5", CName: cn, CTime: k.ctime, Cusec: k.cusec},
+		Conf: rnd.Bytes}
+	b, err := m.Build()
+	if err != nil {
+		panic(err)
+	}
+	return b
+}
+
+// historySkews is history for a service process that verifies through several Settings differing in their permitted clock
+// skew (sks; two listeners of one process, say): every presentation goes through one of them, drawn at random, and is inside
+// or outside the window of THAT skew; explicit clean-ups retain for one of the skews. The replay cache is the process's, so
+// an authenticator accepted through one Settings is a replay through every other. Where the skews disagree about the
+// authenticator still being acceptable (inside the window used, outside the smallest) a second acceptance is counted and
+// not judged. With one skew this is exactly history (no extra draws from rnd).
+func (e *vpEnv) historySkews(rnd *vh.Rand, hl int, sks []time.Duration, fine bool, st *skewStats) (hist []op) {
+	sets := make([]*service.Settings, len(sks))
+	minSk := sks[0]
+	for i, s := range sks {
+		sets[i] = service.NewSettings(e.gkt, service.DecodePAC(false), service.MaxClockSkew(s))
+		if s < minSk {
+			minSk = s
+		}
+	}
+	pick := func() int {
+		if len(sks) == 1 {
+			return 0
+		}
+		return rnd.Intn(len(sks))
+	}
+	if st == nil {
+		st = &skewStats{}
+	}
+	acceptedVia := map[string]int{}
 	t0 := time.Now()
 	type minted struct {
 		k   pkey
 		req []byte
 	}
 	var pool []minted
-	mint := func(k pkey, sn kmsg.Name, ske accept.KeytabEntry) minted {
-		cn := kmsg.N(1, k.cname)
-		sess := kmsg.Key{Type: et, Value: pcommon.RefKey(rnd, et)}
-		m := accept.Mint{ServiceKey: kmsg.Key{Type: et, Value: ske.Key}, Kvno: kmsg.U32(1), Realm: "TEST.GOKRB5", SName: sn,
-			Tkt:  kmsg.EncTicketPart{Flags: 0x40800000, Key: sess, CRealm: "TEST.GOKRB5", CName: cn, AuthTime: t0.Add(-time.Minute), EndTime: t0.Add(10 * time.Hour)},
-			Auth: kmsg.Authenticator{CRealm: "TEST.GOKRB5", CName: cn, CTime: k.ctime, Cusec: k.cusec},
-			Conf: rnd.Bytes}
-		b, err := m.Build()
-		if err != nil {
-			panic(err)
-		}
-		return minted{k, b}
-	}
+	mint := func(k pkey, second bool) minted { return minted{k, e.mintReq(rnd, k, second, t0)} }
 	var clk int64
 	for i := 0; i < hl; i++ {
 		x := rnd.Intn(20)
+		si := pick()
+		sk, set := sks[si], sets[si]
 		switch {
 		case x == 0 || (fine && x < 6):
 			var d time.Duration
@@ -766,10 +822,10 @@ func (e *vpEnv) history(rnd *vh.Rand, hl int, sk time.Duration, fine bool) (hist
 				k := pkey{cname: []string{"a", "b"}[rnd.Intn(2)], ctime: ct.Truncate(time.Second), cusec: int(ct.Sub(ct.Truncate(time.Second)) / time.Microsecond)}
 				if rnd.Bool() {
 					k.sname = "HTTP/host.test.gokrb5"
-					m = mint(k, e.svc, e.ktm[0])
+					m = mint(k, false)
 				} else {
 					k.sname = "HTTP/other.test.gokrb5"
-					m = mint(k, e.svc2, e.ktm[1])
+					m = mint(k, true)
 				}
 				pool = append(pool, m)
 			}
@@ -791,6 +847,27 @@ func (e *vpEnv) history(rnd *vh.Rand, hl int, sk time.Duration, fine bool) (hist
 			ok, _, err := service.VerifyAPREQ(&a, set)
 			clk++
 			o := op{Kind: "present", Key: m.k.String(), Call: c, Return: clk}
+			if len(sks) > 1 {
+				o.Skew = sk.String()
+			}
+			// the skews of the process disagree about this authenticator: inside the window used, outside the smallest one
+			disputed := !outside && (now.Sub(ct) > minSk || ct.Sub(now) > minSk)
+			via, accepted := acceptedVia[o.Key]
+			if disputed {
+				st.outsideSmallest++
+			}
+			if accepted && via != si && !outside && !disputed {
+				st.crossSkew++
+			}
+			if ok && !accepted {
+				acceptedVia[o.Key] = si
+			}
+			if ok && accepted && disputed {
+				st.unjudgedSecond++
+				o.Kind = "present-accepted-again-outside-smallest-skew-unjudged"
+				hist = append(hist, o)
+				continue
+			}
 			if ok {
 				o.Replay = false
 			} else if outside {
@@ -945,6 +1022,10 @@ type janitorOut struct {
 	Errors    []string `json:"errors"`
 	// WakeupsWithEntries: times the clock passed a multiple of the skew since the cache was made while the cache held entries
 	WakeupsWithEntries int `json:"wakeups_with_entries"`
+	// processes verifying through Settings with several skews ("a+b" in the specification): see skewStats
+	CrossSkew       int `json:"cross_skew"`
+	OutsideSmallest int `json:"outside_smallest"`
+	UnjudgedSecond  int `json:"unjudged_second"`
 }
 
 func TestJanitorChild(t *testing.T) {
@@ -958,10 +1039,16 @@ func TestJanitorChild(t *testing.T) {
 	if _, err := fmt.Sscanf(spec, "%s %d %d %d %s", &skS, &n, &hl, &seed, &out); err != nil {
 		t.Fatal(err)
 	}
-	sk, err := time.ParseDuration(skS)
-	if err != nil {
-		t.Fatal(err)
+	// "a+b+c": one process whose Settings differ in the permitted clock skew; the cache's janitor gets the first
+	var sks []time.Duration
+	for _, f := range strings.Split(skS, "+") {
+		d, err := time.ParseDuration(f)
+		if err != nil {
+			t.Fatal(err)
+		}
+		sks = append(sks, d)
 	}
+	sk := sks[0]
 	e, err := newVPEnv()
 	if err != nil {
 		t.Fatal(err)
@@ -977,7 +1064,11 @@ func TestJanitorChild(t *testing.T) {
 			t1 := time.Now()
 			if p, v, w := vh.Guard(func() {
 				service.VerifResetReplayCache()
-				hist = e.history(rnd, hl, sk, true)
+				var st skewStats
+				hist = e.historySkews(rnd, hl, sks, sk < time.Minute, &st)
+				res.CrossSkew += st.crossSkew
+				res.OutsideSmallest += st.outsideSmallest
+				res.UnjudgedSecond += st.unjudgedSecond
 			}); p {
 				res.Errors = append(res.Errors, fmt.Sprintf("history %d: %s @ %s", h, v, w))
 			}
@@ -1002,7 +1093,10 @@ func monitorJanitor(t *testing.T, r *vh.Run) {
 	if vh.Thorough() {
 		n, hl = 2000, 100
 	}
-	skews := []string{"2500ms", "1700ms", "7s", "999ms", "3s"}
+	// with a "+": one process whose Settings differ in the permitted clock skew (two listeners, say). The replay cache is the
+	// process's, not a Settings'. These run in processes of their own as well: an implementation is free to start goroutines
+	// when it meets a new skew, as it does for its janitor, and those would outlive a bubble of this process.
+	skews := []string{"2500ms", "1700ms", "7s", "999ms", "3s", "5m+10m", "10m+5m+3m", "2500ms+5s", "4s+1700ms+7s"}
 	exe, err := os.Executable()
 	if err != nil {
 		r.Inconclusive("janitor processes: " + err.Error())
@@ -1047,12 +1141,21 @@ func monitorJanitor(t *testing.T, r *vh.Run) {
 			r.Inconclusive("janitor process for skew " + skews[i] + ": " + res.err)
 			continue
 		}
-		r.Count("janitor_wakeups_with_entries", int64(res.out.WakeupsWithEntries))
+		fam := "janitor"
+		if strings.Contains(skews[i], "+") {
+			fam = "multiskew"
+			r.Inc("multiskew_processes")
+			r.Count("multiskew_represented_through_other_skew", int64(res.out.CrossSkew))
+			r.Count("observe_multiskew_presentations_outside_smallest_skew", int64(res.out.OutsideSmallest))
+			r.Count("observe_multiskew_second_acceptance_outside_smallest_skew_unjudged", int64(res.out.UnjudgedSecond))
+		} else {
+			r.Count("janitor_wakeups_with_entries", int64(res.out.WakeupsWithEntries))
+		}
 		for _, e := range res.out.Errors {
-			r.Violation("C02|janitor|error", "VerifyAPREQ history failed in the janitor process: "+e, map[string]any{"case": "janitor/" + skews[i]})
+			r.Violation("C02|"+fam+"|error", "VerifyAPREQ history failed in the janitor process: "+e, map[string]any{"case": fam + "/" + skews[i]})
 		}
 		for h, hist := range res.out.Histories {
-			judgeVerifyHistory(r, fmt.Sprintf("janitor/%s/%d", skews[i], h), "janitor", hist, false, "", "", h == 0 && i == 0)
+			judgeVerifyHistory(r, fmt.Sprintf("%s/%s/%d", fam, skews[i], h), fam, hist, false, "", "", h == 0 && (i == 0 || i == 5))
 		}
 	}
 }
